@@ -67,6 +67,7 @@ func Hash64(s string) uint64 {
 // stated rule evaluated on this case, classes are free-form labels counted in
 // the histogram.
 func (s *Stats) Case(trace []string, nontrivial bool, classes ...string) {
+	Progress()
 	s.mu.Lock()
 	defer s.mu.Unlock()
 	s.Cases++
